@@ -180,6 +180,32 @@ def ctyped_cases(rng, fn, quick):
     return cases
 
 
+RSTR = ["'a'", "'h\\xe9\\'llo'", "''", "'\\u20acuro'", "'q\"uo\\'te'", "'new\\nline'", "'\\U0001f600x'", "'back\\\\sl'", "'plain text'"]
+RBYTES = ["b''", "b'x\\xff'", "b'q\\'uote'", "b'abc'", "b'\\x00\\n'"]
+RSEQ = ["'a', 1", "'h\\xe9', '\\u20ac'", "", "1.5, None, b'x'", "Fmt(),", "'q\\'', ('\\U0001f600',)", "True, -0.0"]
+RDICT = ["{'k': 'h\\xe9'}", "{}", "{1: [2], '\\u20ac': None}", "{'a': Fmt()}", "{(1, 2): 'q\\'\"'}"]
+RANY = RSTR[:6] + ['5', '-2.5', 'None', 'Fmt()', 'StrSub()', "S('s\\xe9')", "SFmt('sf')", 'IFmt(5)', 'FStr(2.5)', "b'\\xff'", "['\\xe9']",
+                   'FmtRaises()', 'StrNonStr()', "Decimal('1.50')", 'True', '0', "''"]
+REPEAT_VALUES = {
+    'str': RSTR, 'cdef-str': RSTR, 'py-annot-str': RSTR, 'bytes': RBYTES,
+    'list': ['[%s]' % e for e in RSEQ], 'tuple': ['(%s)' % e for e in RSEQ], 'dict': RDICT,
+    'ucs4': UCS4 + ["'\\''", "'\\n'"], 'cint': ['0', '-1', '7', '-42', '255', '65536', '2147483647', '-2147483648'],
+    'clong': ['0', '-1', '9', '-100', '2**63-1', '-2**63', '10**12'],
+    'cdouble': ['0.0', '-0.0', '1.5', '1e10', 'inf', '-inf', 'nan', '-2.75', '1e16', '0.1', '1e-7'], 'cbint': ['True', 'False'],
+}
+
+
+def repeat_cases(rng, fn, quick):
+    """every occurrence of a name must format the value on its own terms: values whose str / repr / ascii texts all differ"""
+    vals = REPEAT_VALUES.get(fn['kind'], RANY)
+    n = min(len(vals), 7 if quick else 16)
+    cases = []
+    for x in rng.sample(vals, n):
+        y = rng.choice(vals)
+        cases.append({'f': fn['name'], 'a': '(%s, %s)' % (x, y), 't': 'repeat/%s/%s' % (fn['kind'], fn['cls']), 'vc': value_class(x)})
+    return cases
+
+
 JOIN_INPUTS = [("['a', 'b', 'c']", "'-'", "'x'"), ("[]", "''", "'y'"), ("['\\xe9', '\\u20ac', '\\U0001f600']", "'\\u20ac'", "'z'"),
                ("['a']", "'sep'", "''"), ("['a', 'b'] * 40", "', '", "'q'"), ("['', '', '']", "'\\xe9'", "'\\U0001f600'"),
                ("['a', 1]", "'-'", "'x'"), ("['a', b'b']", "'-'", "'x'"), ("['a', None]", "''", "'x'"),
@@ -214,6 +240,9 @@ def classify(fn, case, exp, got):
     if e == g == 'text':
         g = 'other-text'
     fam = fn['family']
+    if fam == 'repeat':
+        # operand kind (how the name got its type) x f-string / %-template x which parts differ between occurrences of a name
+        return 'fmt:repeat:%s:%s:%s->%s' % (fn['kind'], fn['cls'], e, g)
     if fam.startswith('percent'):
         tmpl = fn['tmpl']
         groups = sorted({PCT_GROUP.get(t, t) for t in fn['types']})
@@ -245,11 +274,14 @@ def main(ck):
     fns += fmtgen.mapping_pct_functions(rng, ck.pick(8, 60), len(fns))
     fns += fmtgen.ctyped_functions(rng, ck.pick(150, 1800), len(fns))
     fns += fmtgen.join_functions(len(fns))
+    fns += fmtgen.repeat_functions(rng, ck.pick(60, 640), len(fns))
     byname = {f['name']: f for f in fns}
     cases_by_fn = {}
     for f in fns:
         if f['family'] == 'fstring':
             cs = fstring_cases(rng, f, q)
+        elif f['family'] == 'repeat':
+            cs = repeat_cases(rng, f, q)
         elif f['family'].startswith('percent'):
             cs = pct_cases(rng, f, q)
         elif f['family'].startswith('ctyped'):
@@ -259,7 +291,7 @@ def main(ck):
             cs = [{'f': f['name'], 'a': '(%s, %s, %s)' % t, 't': 'join/%s' % f['cls'], 'vc': 'join'} for t in ins]
         cases_by_fn[f['name']] = cs
     # modules: python-syntax functions in .py modules, C-typed ones in .pyx modules (reference: the untyped text)
-    per_mod = ck.pick(80, 300)
+    per_mod = ck.pick(100, 300)
     header = '# cython: language_level=3\n'
     jobs, meta = [], []
     d = tree.subdir('b')
@@ -371,6 +403,8 @@ def main(ck):
             cell = '%s x %s' % (parts[1], typ)
         elif fam == 'fstring':
             cell = 'py-%s x %s' % (parts[1], parts[-1].rsplit(':', 1)[-1])
+        elif fam == 'repeat':
+            cell = 'repeat %s x %s' % (parts[1], parts[2])
         else:
             cell = fam
         cells[cell] = cells.get(cell, 0) + v
@@ -380,6 +414,12 @@ def main(ck):
     ck.inconclusive_if(bool(missing), 'anchor helpers absent from all generated C: %s' % missing)
     for ct in fmtgen.C_INT_TYPES:
         ck.inconclusive_if(not any(k.startswith(ct + ' x ') for k in cells), 'C type %s never observed' % ct)
+    # repeated fields: the same name formatted with different conversions must have been judged for most operand kinds,
+    # and the compiler's field merging (CloneNode) must have happened in the compiled modules at all
+    rep_conv_kinds = {k.split(' ')[1] for k in cells if k.startswith('repeat ') and 'conv' in k.rsplit(':', 1)[-1]}
+    ck.inconclusive_if(len(rep_conv_kinds) < len(fmtgen.REPEAT_KINDS) // 2,
+                       'repeated fields with different conversions judged for only %d operand kinds' % len(rep_conv_kinds))
+    ck.inconclusive_if(not nodes.get('CloneNode'), 'no repeated f-string field was merged by the compiler (no CloneNode in final trees)')
     executed = {k: v for k, v in gcov.items() if v}
     ck.inconclusive_if(not any(k.startswith('__Pyx__PyUnicode_From') or k.startswith('__Pyx_PyUnicode_From') for k in executed),
                        'gcov: no C integer formatting helper executed')
@@ -395,7 +435,7 @@ def main(ck):
         extra={'functions': {fam: sum(1 for f in fns if f['family'] == fam) for fam in sorted({f['family'] for f in fns})},
                'cells_operand_x_spec_type': dict(sorted(cells.items())), 'helpers_in_generated_c (modules)': dict(sorted(helper_static.items())),
                'gcov_execution_counts': dict(sorted(executed.items())),
-               'node_classes_final': {k: nodes.get(k, 0) for k in ('JoinedStrNode', 'FormattedValueNode', 'ModNode', 'CoerceToPyTypeNode',
+               'node_classes_final': {k: nodes.get(k, 0) for k in ('JoinedStrNode', 'FormattedValueNode', 'ModNode', 'CloneNode', 'CoerceToPyTypeNode',
                                                                    'PythonCapiCallNode', 'SimpleCallNode', 'AddNode') if nodes.get(k)},
                'outcome_hist_top': dict(sorted(hist.items(), key=lambda kv: -kv[1])[:30])},
         assumptions=['CPython 3.12.1 executing the same source is the reference (for C-typed operands: the same expression on the '
